@@ -160,7 +160,10 @@ pub fn check_history(cfg: &ModelCfg, calls: &[CallRec], out: &mut Outcome) {
         {
             let n_ok = c.attempts.iter().filter(|a| a.ok).count();
             let allowed = match &c.kind {
-                CallKind::Emit { .. } if bypass => 1,
+                // an oversize metric goes out alone; a variant may first send what is buffered
+                // so that the order on the wire is the order of the emits (no statement forbids it:
+                // the oversize metric "does not fit in the space remaining")
+                CallKind::Emit { .. } if bypass => 1 + usize::from(!remaining.is_empty()),
                 CallKind::Emit { .. } => 2,
                 CallKind::Flush | CallKind::Drop => 1,
             };
@@ -290,6 +293,9 @@ pub fn check_history(cfg: &ModelCfg, calls: &[CallRec], out: &mut Outcome) {
                 if lone.is_empty() && matches!(res, CallResult::Err(e) if any_failed && err_matches(e)) {
                     // refused before its own write was attempted (a failed write earlier in the call)
                     dead.push((*id, text.clone()));
+                } else if lone.is_empty() && text.is_empty() {
+                    // an empty metric that "does not fit" (capacity below the terminator's length):
+                    // zero bytes are on the wire whether or not a zero-length write was made
                 } else if lone.is_empty() {
                     out.violate(&["C05", "C06", "C13"], "linebuf.bypass-not-written", format!("call #{ci}: oversize metric #{id} ({}+{tl} > {cap}) was not written alone and unmodified during its own emit ({} other writes)", text.len(), c.attempts.len()));
                     return;
@@ -428,6 +434,10 @@ pub fn check_history(cfg: &ModelCfg, calls: &[CallRec], out: &mut Outcome) {
                 CallKind::Emit { text, .. } if bypass => {
                     let _ = text;
                     expect.push(vec![0]);
+                    if n_before > 0 {
+                        // order-preserving variant: what is buffered first, then the oversize metric alone
+                        expect.push(vec![n_before, 0]);
+                    }
                 }
                 CallKind::Emit { text, .. } => {
                     let req = line_len(text);
@@ -492,13 +502,19 @@ pub fn check_history(cfg: &ModelCfg, calls: &[CallRec], out: &mut Outcome) {
             } else if cut_short {
                 // the call was cut short by a refused write: the fill counter only moves if the
                 // flush that makes room had already succeeded
-                if flushes_first && collapsed.len() >= 2 {
+                let bypass_flushed_first = bypass && n_before > 0 && collapsed.first().map(|(k, ok)| *k == n_before && *ok).unwrap_or(false);
+                if (flushes_first && collapsed.len() >= 2) || bypass_flushed_first {
                     fill = 0;
                 }
             } else {
                 // advance the strict fill counter
                 match &c.kind {
-                    CallKind::Emit { .. } if bypass => {}
+                    CallKind::Emit { .. } if bypass => {
+                        if ok_shapes.len() == 2 {
+                            // the buffered lines were sent first
+                            fill = 0;
+                        }
+                    }
                     CallKind::Emit { text, .. } => {
                         let req = line_len(text);
                         if fill + req > cap {
@@ -578,6 +594,11 @@ fn kind_name(k: &CallKind) -> String {
 /// Greedy in-order packing reference for C19 (fault-free mode): the exact list of batches the
 /// history must produce. Compared against the successful writes as an independent second oracle.
 pub fn greedy_packing(cap: usize, tl: usize, ops: &[(Option<usize>, bool)]) -> Vec<Vec<usize>> {
+    greedy_packing_mode(cap, tl, ops, false)
+}
+
+/// `oversize_is_barrier`: an oversize metric first sends what is buffered (order-preserving variant).
+pub fn greedy_packing_mode(cap: usize, tl: usize, ops: &[(Option<usize>, bool)], oversize_is_barrier: bool) -> Vec<Vec<usize>> {
     // ops: (Some(len), _) = emit of len; (None, _) = flush/drop
     let mut out: Vec<Vec<usize>> = Vec::new();
     let mut cur: Vec<usize> = Vec::new();
@@ -587,6 +608,12 @@ pub fn greedy_packing(cap: usize, tl: usize, ops: &[(Option<usize>, bool)]) -> V
             Some(len) => {
                 let req = len + tl;
                 if req > cap {
+                    if oversize_is_barrier {
+                        if !cur.is_empty() {
+                            out.push(std::mem::take(&mut cur));
+                        }
+                        fill = 0;
+                    }
                     out.push(vec![usize::MAX - i]); // a lone oversize write, identified by its op index
                     continue;
                 }
